@@ -207,6 +207,11 @@ def check(ctx):
         # the same selection written as a mask: the rows of the stored field at the positions j with j % every == 0
         want_mask = nf.fn("cmp:==", nf.fn("op:Mod", nf.sym("@J"), nf.sym("every")), {})
         masked = [e for e in p.events if e.kind == "for_iter" and isinstance(e.data["iter"], Num) and e.data["iter"].nf == nf.fn("rows", PP, want_mask)]
+        if len(masked) != 1:
+            # ... or as a strided view: rows 0, every, 2 every, ... of the stored field, on a partition where `every` is known
+            # to be a positive step (a zero step raises, a negative one walks backwards from the last row)
+            pos_step = any(c and d.replace(" ", "") in ("every>0", "every>=1", "0<every", "1<=every") for _k, c, d in p.decisions)
+            masked = [e for e in p.events if pos_step and e.kind == "for_iter" and isinstance(e.data["iter"], Num) and nf.show(e.data["iter"].nf, 200) == "[](reservoir.pseudopressure, slice(None, None, every))"]
         if len(masked) == 1:
             okl, row = True, masked[0].data["iter"].nf
             ctx.check(okl, "C20-b", q + ":profile selection " + tag(p), f.where(), "the loop runs over every stored row of reservoir.pseudopressure and draws those with index % every == 0 (first and last eligible rows included)", signature="profile selection", loops=1)
@@ -301,6 +306,18 @@ def check(ctx):
             rows_ = base_
         frame_ = nf.fn("[]", rows_, nf.sym("'Days'"), nf.sym("'Gas'"), nf.sym("'Pressure'"))
         ctx.identity("C20-b", q + ":rows plotted " + tag(p, ()), f.where(), "the production curve is the running sum of the Gas column of exactly the documented rows (Gas > 0 and a pressure reading when filtering, all rows otherwise)", cum, nf.fn("cumsum", colf(frame_, "Gas")))
+        # ... and that history is the table's own: the Pressure column of those rows, smoothed by the boxcar filter when a
+        # window is given - not moved, clipped or re-sampled on the way to the simulation (the selection C18-d checks for the fit)
+        raw_p_ = colf(frame_, "Pressure")
+        nowin_ = next((c for _k, c, d in p.decisions if d == "filter_window_size is None"), None)
+        pfv_ = sims[0].data["args"]["pressure_fracface"]
+        if nowin_:
+            ctx.identity("C20-b", q + ":pressure history " + tag(p, ()), f.where(), "without a window the frac-face history simulated and drawn is the Pressure column unchanged", pf, raw_p_)
+        else:
+            from ..values import Buf as _Buf, ExtObj as _Ext
+
+            okw_ = isinstance(pfv_, _Ext) and pfv_.qual == "scipy.ndimage.uniform_filter1d" and it2.to_nf(pfv_.args.get("input")) == raw_p_ and it2.to_nf(pfv_.args.get("size")) == nf.sym("filter_window_size") and set(pfv_.args) <= {"input", "size", "output"} and ("output" not in pfv_.args or isinstance(pfv_.args["output"], _Buf))
+            ctx.check(okw_, "C20-b", q + ":pressure smoothing " + tag(p, ()), f.where(), "with a window the frac-face history simulated and drawn is the boxcar filter of the Pressure column with size = filter_window_size", signature="comparison smoothing", got=str(pfv_)[:200])
         ctx.check(ys[2] == pf, "C20-b", q + ":frac-face pressure " + tag(p, ()), f.where(), "curve 3 is the frac-face pressure history handed to the simulation", signature="comparison pressure", y=nf.show(ys[2], 120))
         k, bad = scale_uses(p, q)
         ctx.check(k >= 2 and not bad, "C20-a", q + ":xscale " + tag(p, ()), f.where(), "both axes use the registered square-root scale name", signature="xscale " + ",".join(bad), nontrivial=False)
